@@ -20,8 +20,22 @@ import traceback
 ROOT = os.path.dirname(os.path.dirname(os.path.abspath(__file__)))
 
 
+class StructureTimeout(BaseException):
+    pass
+
+
 def _worker(args):
     modname, s = args
+    import signal
+    budget = int(os.environ.get("VERIF_STRUCT_TIMEOUT", "1500"))
+
+    def on_alarm(signum, frame):
+        raise StructureTimeout()
+    try:
+        signal.signal(signal.SIGALRM, on_alarm)
+        signal.alarm(budget)
+    except (ValueError, OSError):
+        pass
     try:
         mod = importlib.import_module(modname)
         t = time.time()
@@ -29,9 +43,19 @@ def _worker(args):
         r.setdefault("sid", s.get("sid"))
         r["wall"] = time.time() - t
         return r
+    except StructureTimeout:
+        # the code under proof (or the engine) did not come back within the budget: termination is not a claim of any
+        # contract here - the structure is undecided, the check must not hang
+        return {"sid": s.get("sid"), "obligations": [], "paths": 0, "queries": 0, "solver_time": 0.0,
+                "engine_errors": [f"structure did not finish within {budget} s (possible non-termination of the code under proof)"]}
     except BaseException as e:  # noqa
         return {"sid": s.get("sid"), "crash": f"{type(e).__name__}: {e}", "tb": traceback.format_exc(limit=12),
                 "obligations": [], "paths": 0, "queries": 0, "solver_time": 0.0}
+    finally:
+        try:
+            signal.alarm(0)
+        except (ValueError, OSError):
+            pass
 
 
 def load_known(pid):
@@ -75,10 +99,18 @@ def main(pid, tier="quick", seed=0, jobs=None, only=None, write_baseline=False):
     jobs = jobs or int(os.environ.get("VERIF_JOBS", "0")) or min(16, os.cpu_count() or 4)
     results = []
     if jobs > 1 and len(structs) > 1:
+        # ProcessPoolExecutor (not mp.Pool): the death of a worker (OOM kill, solver crash) surfaces as BrokenProcessPool
+        # instead of blocking the parent forever
+        from concurrent.futures import ProcessPoolExecutor, as_completed
         ctxm = mp.get_context("fork")
-        with ctxm.Pool(min(jobs, len(structs))) as pool:
-            for r in pool.imap_unordered(_worker, [(modname, s) for s in structs], chunksize=1):
-                results.append(r)
+        with ProcessPoolExecutor(max_workers=min(jobs, len(structs)), mp_context=ctxm) as ex:
+            futs = {ex.submit(_worker, (modname, s)): s for s in structs}
+            for f in as_completed(futs):
+                try:
+                    results.append(f.result())
+                except BaseException as e:  # noqa
+                    results.append({"sid": futs[f].get("sid"), "crash": f"worker lost: {type(e).__name__}: {e}", "tb": "", "obligations": [], "paths": 0,
+                                    "queries": 0, "solver_time": 0.0})
     else:
         for s in structs:
             results.append(_worker((modname, s)))
